@@ -41,7 +41,7 @@ def run(ctx, prop=PROP):
                   extra_cov={"driver_calls_by_family": {k.split(":", 1)[1]: int(v) for k, v in sorted(mon.calls.items()) if k.startswith("driver:")},
                              "scope": drive_agg.scopes(ctx.tier)})
     if proved:
-        ctx.coverage["proved_subobligations"] = dict(proved, what="the real reduce of ffunc_X and xfunc_X (X = count, valid_count, sum, mean) executed cell-wise on the "
+        ctx.coverage["proved_subobligations"] = dict(proved, back_ends=["z3"], functions_under_contract=sorted(proved.get("cellwise_functions", {})), what="the real reduce of ffunc_X and xfunc_X (X = count, valid_count, sum, mean) executed cell-wise on the "
                                                      "SAME symbols (V valid rows, M missing rows, Wv valid weight, S value): same missing flag, same value where not missing, "
                                                      "and that value is the direct per-cell aggregate (rows or weighted count / S / S over Wv), for both policies, weighted and "
                                                      "unweighted, NaN and (value, validity) report formats")
